@@ -233,7 +233,7 @@ def header(origin):
 #                                            an expression containing one becomes Except-valued and is bound (`match`)
 #                                            left to right before use; `and` / `or` / if-expressions keep short-circuiting
 #   xs[i:j], xs[i:], xs[:j]                  Py.slice / sliceFrom / sliceTo (negative and out-of-range bounds as CPython)
-#   len, min, max, enumerate, bool, not      Py.len, Py.imin, Py.imax, Py.enumerate, truthiness by type
+#   len, min, max, enumerate, range, bool    Py.len, Py.imin, Py.imax, Py.enumerate, Py.range, truthiness by type
 #   c == "\n", c in " \t", s != "\n"         code-point comparisons / membership in a literal list
 #   s.lstrip(" \t"), "\n".join(xs)           Py.lstrip s [32, 9], Py.join [10] xs   (explicit character sets only)
 #   try: S except C1 / (C1, C2): H [else]   the body is a sub-computation; a raised class NAMED by a handler runs it (first match),
@@ -703,6 +703,14 @@ class Tr:
                     x = self.expr(args[0])
                     return self.lift([x], lambda ts: (
                         "(" + " || ".join("(%s %s)" % (self.isinstance_map[k], ts[0]) for k in keys) + ")", BOOL))
+            if n == "range" and len(args) in (1, 2):
+                es = [self.expr(a) for a in args]
+                for x, a in zip(es, args):
+                    self.need(x, INT, a)
+                self.constructs.add("range(a, b) -> Py.range (the list of the integers a .. b-1)")
+                if len(es) == 1:
+                    return self.lift(es, lambda ts: ("(Py.range (0 : Int) %s)" % ts[0], TList(INT)))
+                return self.lift(es, lambda ts: ("(Py.range %s %s)" % tuple(ts), TList(INT)))
             if n == "zip" and len(args) == 2:
                 a, b = self.expr(args[0]), self.expr(args[1])
                 if all(isinstance(x.ty, tuple) and x.ty[0] == "List" for x in (a, b)):
